@@ -43,7 +43,7 @@ ASSUMPTIONS = ["the reclamation bound is circuit_timeout + (hops + 2) x (max_tim
 REACH = ["dropped:destroy", "dropped:CreatedPayload", "dropped:ExtendedPayload", "dropped:ExtendPayload", "dropped:CreatePayload", "dropped:relayed_handshake",
          "reclaimed_by_timeout_only", "exit_transports_closed", "originator_crash", "join_refused_at_limit",
          "relay_early_over_budget_dropped", "exit_wants_unbuildable_tunnels", "chatty_outside_peer", "phase:half", "phase:ready", "phase:transfer",
-         "phase:first_packet", "teardown_right_behind_first_packet", "pool_node_wants_tunnels", "greedy_exit_burst", "data_over_half_built_circuit"]
+         "phase:first_packet", "teardown_right_behind_first_packet", "pool_node_wants_tunnels", "greedy_exit_burst", "data_over_half_built_circuit", "key_answer_altered_in_flight"]
 
 DESTROY_ID = 8
 CONTROL = ("CreatePayload", "CreatedPayload", "ExtendPayload", "ExtendedPayload")
@@ -106,6 +106,14 @@ def cases(tier: str, base_seed: int):  # noqa: ANN201
             for who in ("originator", "crash"):
                 yield {"seed": base_seed, "knobs": {"lat_jit": 0.0}, "cfg": {"hops": hops, "who": who, "phase": phase}, "drops": [],
                        "extra": [{"kind": "early_data"}]}
+    # every key answer is altered in flight and nobody tears anything down: the retry timer is what has to give the circuit up
+    for hops in (1, 2, 3):
+        for nbad in (99, 1):
+            for who in ("nobody", "originator"):
+                if who == "nobody" and nbad == 1:
+                    continue        # (the retry succeeds and nobody gives the circuit up: it legitimately lives on)
+                yield {"seed": base_seed, "knobs": {"lat_jit": 0.0}, "cfg": {"hops": hops, "who": who, "phase": "ready"}, "drops": [],
+                       "extra": [{"kind": "bad_answer", "n": nbad}]}
     # the first data packet chased by the teardown, with and without the removal grace period
     for hops in (1, 2):
         for who in ("originator", "exit"):
@@ -145,7 +153,7 @@ def cases(tier: str, base_seed: int):  # noqa: ANN201
                 {"kind": "crash", "node": rng.choice(["hop1", "exit"]), "t": rng.choice([0.2, 2.0, 6.0])},
                 {"kind": "jump", "node": rng.choice(["o", "hop1", "exit"]), "delta": rng.choice([-30.0, -5.0, 10.0, 120.0]),
                  "t": rng.choice([1.0, 5.0, 20.0])},
-                {"kind": "greedy"}, {"kind": "greedy_exit"}, {"kind": "early_data"}, {"kind": "join_limit", "limit": rng.choice([1, 2, 3])},
+                {"kind": "greedy"}, {"kind": "greedy_exit"}, {"kind": "early_data"}, {"kind": "bad_answer", "n": rng.choice([1, 2, 99])}, {"kind": "join_limit", "limit": rng.choice([1, 2, 3])},
                 {"kind": "exit_wants_tunnels"}, {"kind": "chatty_outside", "every": rng.choice([3.0, 5.0, 15.0])},
                 {"kind": "hop_wants_tunnels", "node": rng.choice(["exit", "hop1"]), "t": rng.choice([0.3, 1.0, 2.5, 4.0])},
                 {"kind": "stall", "node": rng.choice(["hop1", "exit"]), "t": rng.choice([0.5, 3.0]), "d": rng.choice([2.0, 30.0])}]))
@@ -172,6 +180,7 @@ def execute(case: dict) -> dict:  # noqa: C901, PLR0915
         settings["remove_tunnel_delay"] = cfg["rtd"]      # a configuration knob of the library (its own tests run with 0)
     lonely_exit = any(e["kind"] == "exit_wants_tunnels" for e in extra)
     early_data = any(e["kind"] == "early_data" for e in extra)
+    bad_answer = next((int(e.get("n", 99)) for e in extra if e["kind"] == "bad_answer"), 0)
     if early_data:
         settings["next_hop_timeout"] = 3
     # (with "exit_wants_tunnels" the world has a single exit node, which itself asks for tunnels it can never build)
@@ -190,6 +199,15 @@ def execute(case: dict) -> dict:  # noqa: C901, PLR0915
             kind = "relayed_handshake"      # extend / extended / created travelling through a relay while the circuit is built
         if kind is None or pkt.injected:
             return None
+        if bad_answer and kind == "CreatedPayload" and st.get("bad_answers", 0) < bad_answer and len(pkt.data) > 75:
+            # the key answer is altered in flight (one bit of its authenticator): it carries the right circuit id and identifier but
+            # does not verify at the originator
+            st["bad_answers"] = st.get("bad_answers", 0) + 1
+            world.fault("answer_altered")
+            world.probe("key_answer_altered_in_flight")
+            b = bytearray(pkt.data)
+            b[70] ^= 0x10
+            return bytes(b)
         if early_data and kind == "CreatePayload" and pkt.src_node != "n0" and not st.get("early_dropped"):
             # the first onward create of the first hop is lost: the circuit stays half-built until the retry
             st["early_dropped"] = True
